@@ -212,3 +212,9 @@ Print Assumptions C04_source_sites.
 Theorem C04_source_push_shape : gen_push_shape = [] \/ gen_push_shape = expected_push_shape.
 Proof. exact source_push_shape. Qed.
 Print Assumptions C04_source_push_shape.
+
+(** the kind of lock each registry entry point takes, read off callsite.rs: rebuild_interest_cache and register_dispatch take the
+    dispatcher list for WRITING, register for READING — the model's [PWrLock] / [PRgRLock] *)
+Theorem C04_source_lock_kinds : gen_lock_kinds = [] \/ gen_lock_kinds = expected_lock_kinds.
+Proof. exact source_lock_kinds. Qed.
+Print Assumptions C04_source_lock_kinds.
